@@ -18,6 +18,19 @@ import (
 var knownBadAttrs16 = map[int]string{}
 var knownBadAttrs32 = map[int]string{}
 
+// pct is an unbiased percentage draw (rapid's integer generators favour small
+// values, so IntRange(0,99) < p is not a p% event).
+func pct(t *rapid.T, label string, p int) bool {
+	v := 0
+	for i := 0; i < 7; i++ {
+		v <<= 1
+		if rapid.Bool().Draw(t, label) {
+			v |= 1
+		}
+	}
+	return v*100/128 < p
+}
+
 var thresholds = []float64{0, 0.1, 0.3, 0.9, 1, 5}
 
 // genOptions draws producer options over the domain of C04: every dictionary
@@ -168,7 +181,7 @@ func TestC04(t *testing.T) {
 	rec := kit.Get("C04")
 	rapid.Check(t, func(t *rapid.T) {
 		o := genOptions(t, rec)
-		big := thorough() && rapid.IntRange(0, 39).Draw(t, "big") == 0
+		big := pct(t, "big", map[bool]int{true: 4, false: 1}[thorough()])
 		c, _ := genOptionHistory(t, historyPlan{MinBatches: 1, MaxBatches: 8, Big: big, Knobs: gen.InDomain()})
 		c.Options = o
 		res, err := RunStream(c, RunConfig{Decode: true, StopAtDecodeFail: true})
